@@ -67,6 +67,7 @@ def run(ctx):
         ctx.guard("C14", "strict-end", lambda: parser.end_classification(ctx, prog))
         ctx.guard("C14", "strict-out", lambda: parser.driver_outcomes(ctx, prog))
         ctx.guard("C14", "const values", lambda: data.const_census(ctx, prog, data.CONST_SCOPES["C14"], floor=1))
+        ctx.guard("C14", "panic conditions", lambda: beliefs.live_census(ctx, prog, None))
         ctx.guard("C14", "summaries", lambda: summary.check(ctx, prog, '_unchecked$|internals::intrinsics::', floor=2))
         ctx.guard("C14", "generic consts", lambda: summary.check_consts(ctx, prog, floor=13))
         ctx.guard("C14", "path summaries", lambda: summary.check_paths(ctx, prog, '_unchecked$|internals::intrinsics::', floor=0))
